@@ -26,7 +26,7 @@ def foldRc (lgK rc : Nat) : Nat := ((rc / 64) % 2^lgK) * 64 + rc % 64
 
 /-- `walk_table_updating_sketch` -/
 def walkTable (T : HipTables) (acc : Sketch) (table : List Nat) : Sketch :=
-  table.foldl (fun a rc => rowColUpdate T a (foldRc a.lgK rc)) acc
+  (table.map (foldRc acc.lgK)).foldl (rowColUpdate T) acc
 
 /-- `dst[i & (k-1)] |= f i` for all source rows `i < srcK` (shared shape of `or_window_into_matrix`,
 `or_matrix_into_matrix`) -/
@@ -67,11 +67,15 @@ def reduceK (T : HipTables) (u : Union) (newLgK : Nat) : Union :=
     if acc.numCoupons = 0 then { lgK := newLgK, acc := some (fresh newLgK), matrix := [] }
     else settle newLgK (walkTable T (fresh newLgK) acc.table)
 
-/-- `internal_update` -/
-def unionUpdate (T : HipTables) (u : Union) (s : Sketch) : Union :=
+/-- the matrix operations of cases C (hybrid / pinned source: OR window and table) and D (sliding source: OR its bit matrix) -/
+def addDense (k : Nat) (m : List Nat) (s : Sketch) : List Nat :=
+  if determineFlavor s.lgK s.numCoupons = .hybrid ∨ determineFlavor s.lgK s.numCoupons = .pinned then
+    orTableIntoMatrix k (orWindowIntoMatrix k m s.window s.offset (2^s.lgK)) s.table
+  else orMatrixIntoMatrix k m (buildBitMatrix s) (2^s.lgK)
+
+/-- the part of `internal_update` after the optional `reduce_k` (source not empty, `u.lgK ≤ s.lgK`) -/
+def updateBody (T : HipTables) (u : Union) (s : Sketch) : Union :=
   let fl := determineFlavor s.lgK s.numCoupons
-  if fl = .empty then u else
-  let u := if s.lgK < u.lgK then reduceK T u s.lgK else u
   let k := 2^u.lgK
   match u.acc with
   | some acc =>
@@ -80,21 +84,16 @@ def unionUpdate (T : HipTables) (u : Union) (s : Sketch) : Union :=
       if acc.numCoupons = 0 ∧ u.lgK = s.lgK then { u with acc := some s }
       else settle u.lgK (walkTable T acc s.table)
     else
-      let m := buildBitMatrix acc       -- switch_to_bit_matrix
-      if fl = .hybrid ∨ fl = .pinned then
-        -- case C
-        { u with acc := none, matrix := orTableIntoMatrix k (orWindowIntoMatrix k m s.window s.offset (2^s.lgK)) s.table }
-      else
-        -- case D
-        { u with acc := none, matrix := orMatrixIntoMatrix k m (buildBitMatrix s) (2^s.lgK) }
+      -- switch_to_bit_matrix, then case C or D
+      { u with acc := none, matrix := addDense k (buildBitMatrix acc) s }
   | none =>
-    if fl = .sparse then
-      -- case B
-      { u with matrix := orTableIntoMatrix k u.matrix s.table }
-    else if fl = .hybrid ∨ fl = .pinned then
-      { u with matrix := orTableIntoMatrix k (orWindowIntoMatrix k u.matrix s.window s.offset (2^s.lgK)) s.table }
-    else
-      { u with matrix := orMatrixIntoMatrix k u.matrix (buildBitMatrix s) (2^s.lgK) }
+    if fl = .sparse then { u with matrix := orTableIntoMatrix k u.matrix s.table }     -- case B
+    else { u with matrix := addDense k u.matrix s }                                    -- case C or D
+
+/-- `internal_update` -/
+def unionUpdate (T : HipTables) (u : Union) (s : Sketch) : Union :=
+  if determineFlavor s.lgK s.numCoupons = .empty then u
+  else updateBody T (if s.lgK < u.lgK then reduceK T u s.lgK else u) s
 
 /-- `get_result_from_bit_matrix` -/
 def resultFromMatrix (lgK : Nat) (m : List Nat) : Sketch :=
@@ -110,5 +109,14 @@ def getResult (u : Union) : Sketch :=
   match u.acc with
   | some acc => if acc.numCoupons = 0 then fresh u.lgK else { acc with merged := true }
   | none => resultFromMatrix u.lgK u.matrix
+
+/-- a union history: a fresh union of `lgK0` updated with the inputs in list order -/
+def unionRun (T : HipTables) (lgK0 : Nat) (inputs : List Sketch) : Union := inputs.foldl (unionUpdate T) (unionNew lgK0)
+
+/-- lg_k after an update (specification): the minimum with a non-empty source, unchanged by an empty one -/
+def lgKAfter (lgK : Nat) (s : Sketch) : Nat := if s.numCoupons = 0 then lgK else min lgK s.lgK
+
+/-- the lg_k a union history ends with (specification): min over the initial value and the non-empty inputs -/
+def unionLgK (lgK0 : Nat) (inputs : List Sketch) : Nat := inputs.foldl lgKAfter lgK0
 
 end DS.Cpc
